@@ -146,16 +146,32 @@ func (s *Stack) FEInvoke(caller int, payload []byte, clientCtx, traceID string, 
 	}
 	req.Header.Set("X-Amzn-Segment-Id", fmt.Sprintf("j%d", j))
 	w := httptest.NewRecorder()
+	sw := &stallWriter{ResponseRecorder: w, at: func() { s.Gates.at(fmt.Sprintf("drv.feWrite:%d", caller)) }}
 	t0 := time.Now()
 	s.Rec.Emit(fmt.Sprintf("caller:%d", caller), "FECall", "caller", caller, "j", j, "size", len(payload), "sha", sha8(payload),
 		"badctx", badCtx, "ctx", clientCtx, "trace", traceID)
-	FrontEndHandler(w, req, &feSandbox{s: s, api: s.API}, &bootstrap{cwd: s.Root})
+	FrontEndHandler(sw, req, &feSandbox{s: s, api: s.API}, &bootstrap{cwd: s.Root})
 	body := w.Body.Bytes()
 	res := InvokeResult{Status: w.Code, Body: body, DurMs: time.Since(t0).Milliseconds()}
 	res.Class = s.classify(body)
 	s.Rec.Emit(fmt.Sprintf("caller:%d", caller), "FERet", "caller", caller, "j", j, "status", w.Code, "body", res.Class,
 		"size", len(body), "sha", sha8(body), "durMs", res.DurMs)
 	return res
+}
+
+// stallWriter is the caller's connection: a write of body bytes passes the driver-side pause point
+// "drv.feWrite:<caller>" before the bytes are taken (a connection whose peer does not read stalls the write; the
+// bytes handed to it must still be the ones delivered once it continues).
+type stallWriter struct {
+	*httptest.ResponseRecorder
+	at func()
+}
+
+func (w *stallWriter) Write(p []byte) (int, error) {
+	if len(p) > 0 {
+		w.at()
+	}
+	return w.ResponseRecorder.Write(p)
 }
 
 // feSetup prepares the process-wide state the front end reads.
